@@ -552,7 +552,7 @@ fn expiry_oracle(c: &ExpiryCase, info: &mut Case) -> Result<(), String> {
 }
 
 pub fn run(ctx: &Ctx) {
-    ctx.explore("export", ctx.tier.pick(15_000, 100_000), 16, export_case, export_oracle);
-    ctx.explore("manager", ctx.tier.pick(6_000, 40_000), 16, mgr_case, mgr_oracle);
-    ctx.explore("expiry", ctx.tier.pick(9_000, 60_000), 16, expiry_case, expiry_oracle);
+    ctx.explore("export", ctx.tier.pick(15_000, 500_000), 16, export_case, export_oracle);
+    ctx.explore("manager", ctx.tier.pick(6_000, 200_000), 16, mgr_case, mgr_oracle);
+    ctx.explore("expiry", ctx.tier.pick(9_000, 300_000), 16, expiry_case, expiry_oracle);
 }
